@@ -416,6 +416,15 @@ class Unit:
             for n_, lp in enumerate(rsitems.loops_in(text, lo_m, hi_m, code_m)):
                 splices.append((lp[2] + 1, '/*@LOOP:%s:%d*/' % (spec.key, n_)))
         for anchor, pos, ins in kw.get('inserts', []):
+            optional = anchor.startswith('?')
+            if optional:
+                # an optional hint: when its anchor is gone the hint is dropped (the proof that
+                # relied on it then fails on its own merits instead of the extraction failing)
+                anchor = anchor[1:]
+                probe = anchor[len('@after_stmt:'):] if anchor.startswith('@after_stmt:') else (None if anchor.startswith('@') else anchor)
+                if probe is not None and text.count(probe) != 1:
+                    log.append(dict(rule='R2', where=where, matches=0, why='optional hint dropped: anchor %r not found' % anchor))
+                    continue
             if anchor.startswith('@'):
                 # structural anchors: '@loop_end:N' (after the closing brace of loop N),
                 # '@loop_start:N' (just inside loop N's body), '@body_start'
@@ -431,6 +440,52 @@ class Unit:
                     # just before the closing brace of the function body (only meaningful
                     # when the body ends with a statement, not with a tail expression)
                     splices.append((hi_, ins))
+                    continue
+                if anchor.startswith('@arm:'):
+                    # at the head of the match arm whose pattern text is given (unique): inside
+                    # its block, or -- for an expression arm -- the expression is wrapped in
+                    # `{ INS expr }` (same value, same effects)
+                    pat_ = anchor[len('@arm:'):]
+                    if text.count(pat_) != 1:
+                        raise ExtractError('%s: %s: arm pattern found %d times' % (where, anchor, text.count(pat_)))
+                    j = text.index(pat_) + len(pat_)
+                    while j < len(text) and not (code[j] and text.startswith('=>', j)):
+                        j += 1
+                    if j >= len(text):
+                        raise ExtractError('%s: %s: no `=>` after the pattern' % (where, anchor))
+                    j += 2
+                    while j < len(text) and text[j].isspace():
+                        j += 1
+                    if text[j] == '{':
+                        splices.append((j + 1, ins))
+                    else:
+                        e = j
+                        while e < len(text):
+                            if code[e]:
+                                if text[e] in '([{':
+                                    e = rsitems.match_bracket(text, code, e)
+                                elif text[e] == ',' or text[e] == '}':
+                                    break
+                            e += 1
+                        splices.append((j, '{ ' + ins))
+                        splices.append((e, ' }'))
+                    continue
+                if anchor.startswith('@arm_end:'):
+                    # just before the closing brace of the block of the match arm whose pattern
+                    # text is given (block arms only); a `;` is put first so that a tail
+                    # expression of type () becomes a statement
+                    pat_ = anchor[len('@arm_end:'):]
+                    if text.count(pat_) != 1:
+                        raise ExtractError('%s: %s: arm pattern found %d times' % (where, anchor, text.count(pat_)))
+                    j = text.index(pat_) + len(pat_)
+                    while j < len(text) and not (code[j] and text.startswith('=>', j)):
+                        j += 1
+                    j += 2
+                    while j < len(text) and text[j].isspace():
+                        j += 1
+                    if j >= len(text) or text[j] != '{':
+                        raise ExtractError('%s: %s: not a block arm' % (where, anchor))
+                    splices.append((rsitems.match_bracket(text, code, j), '; ' + ins))
                     continue
                 if anchor.startswith('@after_stmt:'):
                     # after the `;` that ends the statement beginning with the given text
@@ -456,6 +511,8 @@ class Unit:
                     splices.append((rsitems.match_bracket(text, code, body) + 1, ins))
                 elif kind_ == 'loop_start':
                     splices.append((body + 1, ins))
+                elif kind_ == 'loop_body_end':
+                    splices.append((rsitems.match_bracket(text, code, body), '; ' + ins))
                 else:
                     raise ExtractError('%s: unknown structural anchor %s' % (where, anchor))
                 continue
@@ -470,6 +527,45 @@ class Unit:
         out, lines = splice_with_map(text, line_start, splices)
         chunks = []
         prefix, suffix = kw.get('wrap', ('', ''))
+        if kw.get('case_split'):
+            # CASE SPLIT (proof engineering, no effect on the code under proof): the function is
+            # emitted once per marker.  Every marker is a one-line ghost statement that an
+            # `inserts` entry put at the head of a distinct `match` arm; in copy i the arms of
+            # all OTHER markers are cut with `assume(false)`, so copy i proves the paths through
+            # arm i (and every path through no marked arm); the copies together prove every
+            # path.  Callers see a contract-only stub, which the copies discharge.
+            # a case is one marker or a group of markers (an arm head plus the hints inside
+            # the loops of that arm: isolated loops are queries of their own and are cut too)
+            groups = [[g_] if isinstance(g_, str) else list(g_) for g_ in kw['case_split']]
+            for g_ in groups:
+                for m_ in g_:
+                    if out.count(m_) < 1 or '\n' in m_:
+                        raise ExtractError('%s: case_split marker %r not found (or spans lines)' % (where, m_))
+            markers = groups
+            kw_stub = dict((k_, v_) for k_, v_ in kw.items() if k_ not in ('case_split', 'inserts', 'loops', 'desugar_for', 'expect'))
+            kw_stub['stub'] = 'case-split copies in unit `%s`' % self.name
+            stub_chunks, _ = self._extract_item(repo, ItemSpec(spec.file, spec.path, **kw_stub), log)
+            for c_ in stub_chunks:
+                if c_.tag == spec.key:
+                    c_.tag = spec.key + '#stub'
+            chunks.extend(stub_chunks)
+            for i_, keep in enumerate(markers):
+                t_ = out
+                for g_ in markers:
+                    if g_ is not keep:
+                        for m_ in g_:
+                            t_ = t_.replace(m_, 'proof { assume(false); /*@CASE_CUT*/ }')
+                chunks.append(Chunk('pub mod %s__case%d { use super::*;\n' % (spec.key, i_)))
+                if prefix:
+                    chunks.append(Chunk(prefix.rstrip('\n') + '\n'))
+                chunks.append(Chunk(t_, origin=path, lines=lines, tag=spec.key))
+                if suffix:
+                    chunks.append(Chunk(suffix.rstrip('\n') + '\n'))
+                chunks.append(Chunk('}\n'))
+            meta['case_split'] = len(markers)
+            log.append(dict(rule='CASE', where=where, matches=len(markers),
+                            why='function emitted %d times, one per marked match arm; in each copy the other marked arms are cut by assume(false) (they are proved in their own copy)' % len(markers)))
+            return chunks, meta
         if prefix:
             chunks.append(Chunk(prefix.rstrip('\n') + '\n'))
         chunks.append(Chunk(out, origin=path, lines=lines, tag=spec.key))
@@ -641,13 +737,23 @@ def desugar_for_loops(text, spec, where, log):
                 raise ExtractError('%s: desugar_for: loop #%d is not over `.iter().enumerate()`' % (where, ordinal))
             expr = expr[:m_.start()]
             elem = '(%s, &it_%s[%s])' % (name, name, name)
+            m2_ = re.match(r'^\(\s*(\w+)\s*,\s*&(\w+)\s*\)$', pat)
+            if m2_:
+                # `(i, &x)`: the element is copied out (pattern `&x` on a `&T`, T: Copy)
+                pat = '(%s, %s)' % (m2_.group(1), m2_.group(2))
+                elem = '(%s, it_%s[%s])' % (name, name, name)
         else:
             elem = ('it_%s[%s]' if mode == 'val' else '&it_%s[%s]') % (name, name)
-        head = '{ let it_%s = %s; let mut %s: usize = 0; while %s < it_%s.len() ' % (name, expr, name, name, name)
+        if mode == 'enum_ref':
+            # temporaries of EXPR must live as long as the loop (as they do for `for`): bind
+            # through a `match` scrutinee
+            head = '{ match %s { it_%s => { let mut %s: usize = 0; while %s < it_%s.len() ' % (expr, name, name, name, name)
+        else:
+            head = '{ let it_%s = %s; let mut %s: usize = 0; while %s < it_%s.len() ' % (name, expr, name, name, name)
         # keep the line structure: header text is replaced on its own line(s)
         nl = text[kw_off:body].count('\n')
         new = (text[:kw_off] + head + '\n' * nl + '{' + ' let %s = %s; %s = %s + 1; ' % (pat, elem, name, name)
-               + text[body + 1:close + 1] + ' }' + text[close + 1:])
+               + text[body + 1:close + 1] + (' } } }' if mode == 'enum_ref' else ' }') + text[close + 1:])
         text = new
         log.append(dict(rule='R9', where=where, matches=1,
                         why='for loop #%d over `%s` desugared to an indexed while loop (position `%s`, elements by %s)' % (ordinal, expr, name, mode)))
